@@ -247,7 +247,9 @@ class _CommonFile:
         records = self._records
         existing = key in records
         records[key] = value
-        if not existing:
+        if not existing and (_RECORD, key) not in self._source:
+            # NOTE: a deleted record keeps its source entry (so that re-adding the user
+            #       preserves the original location, see _iter_lines); don't add a second one.
             self._source.append((_RECORD, key))
         return existing
 
